@@ -242,6 +242,17 @@ fn field_sweeps(acc: &mut Acc) {
             }
         }
     }
+    // long fractions: every length up to 600 digits and the lengths around 2^16 and 2^17 (a count of the digits past
+    // the ninth kept in a narrow integer, or a length-limited scan, shows at one of them); the value is the first nine
+    for n in (21..=600usize).chain(65_530..=65_550).chain([131_080, 131_081]) {
+        let digits: String = "1234567890987654321098".chars().cycle().take(n).collect();
+        for off in ["Z", "+05:30"] {
+            buf = format!("2015-02-18T23:16:09.{}{}", digits, off);
+            accept_one(acc, &buf, false);
+        }
+        buf = format!("2015-02-18T23:59:60.{}-00:00", digits);
+        accept_one(acc, &buf, false);
+    }
 }
 
 /// Histories of length two on one thread: renderings at offsets that share a quarter hour, at +X / -X, on both sides
